@@ -64,6 +64,8 @@ MT_ACK = proto.MT_ACKNOWLEDGE
 # type id -> payload size; two groups so that "subscribed" and "unsubscribed" good frames exist
 SIZES: Dict[int, int] = {5000: 0, 5001: 8, 5002: 104, 5003: 4096,
                          5010: 0, 5011: 8, 5012: 104, 5013: 4096}
+# a hand-written definition of the older style: no type_hash and no type_size (the client reads the size from the instance)
+V1_SIZES: Dict[int, int] = {5004: 8}
 UNKNOWN_IDS = (6000, 6001)  # never defined
 
 
@@ -76,9 +78,11 @@ CLS: Dict[int, type] = {}
 REG: Dict[int, Tuple[int, Optional[int]]] = {}
 
 
-def _make_cls(mt: int, size: int):
+def _make_cls(mt: int, size: int, v1: bool = False):
     ns = dict(type_id=mt, type_name=f"ENGD_{mt}", type_size=size, type_source="", type_def="",
               type_hash=type_hash_of(mt))
+    if v1:
+        del ns["type_hash"], ns["type_size"]
     if size == 8:
         ns["val"] = Double()
     elif size == 104:
@@ -98,7 +102,7 @@ def _make_cls(mt: int, size: int):
 def _register():
     if CLS:
         return
-    for mt in list(SIZES) + list(UNKNOWN_IDS):
+    for mt in list(SIZES) + list(V1_SIZES) + list(UNKNOWN_IDS):
         try:
             get_msg_cls(mt)
         except UnknownMessageType:
@@ -107,6 +111,11 @@ def _register():
     for mt, size in SIZES.items():
         CLS[mt] = _make_cls(mt, size)
         REG[mt] = (size, type_hash_of(mt))
+    for mt, size in V1_SIZES.items():
+        CLS[mt] = _make_cls(mt, size, v1=True)
+        if hasattr(CLS[mt], "type_hash"):
+            raise HarnessError("the older-style class unexpectedly has a type_hash")
+        REG[mt] = (size, None)
     ack = get_msg_cls(MT_ACK)
     if ctypes.sizeof(ack) != 0:
         raise HarnessError("core ACKNOWLEDGE is expected to be a signal")
